@@ -1,0 +1,100 @@
+// Verification-only (`--cfg metrique_verif_loom`): the real tokio `oneshot` channel with a
+// loom-visible marker in front of every operation, so that a controlled scheduler treats each
+// send / drop / poll as one step that conflicts with the others on the same channel.
+#![allow(missing_docs)]
+
+pub mod sync {
+    pub mod oneshot {
+        use metrique_writer_core::__verif::shadow::Shadow;
+        use metrique_writer_core::__verif::sync::Arc;
+        use std::future::Future;
+        use std::pin::Pin;
+        use std::task::{Context, Poll};
+        pub use tokio::sync::oneshot::error;
+
+        pub struct Sender<T> {
+            inner: Option<tokio::sync::oneshot::Sender<T>>,
+            shadow: Arc<Shadow>,
+        }
+
+        pub struct Receiver<T> {
+            inner: Option<tokio::sync::oneshot::Receiver<T>>,
+            shadow: Arc<Shadow>,
+        }
+
+        pub fn channel<T>() -> (Sender<T>, Receiver<T>) {
+            let (tx, rx) = tokio::sync::oneshot::channel();
+            let shadow = Arc::new(Shadow::new());
+            (
+                Sender {
+                    inner: Some(tx),
+                    shadow: shadow.clone(),
+                },
+                Receiver {
+                    inner: Some(rx),
+                    shadow,
+                },
+            )
+        }
+
+        impl<T> Sender<T> {
+            pub fn send(mut self, t: T) -> Result<(), T> {
+                self.shadow.touch();
+                self.inner.take().expect("sender used once").send(t)
+            }
+            pub fn is_closed(&self) -> bool {
+                self.shadow.touch();
+                self.inner.as_ref().expect("sender alive").is_closed()
+            }
+        }
+
+        impl<T> Drop for Sender<T> {
+            fn drop(&mut self) {
+                if let Some(tx) = self.inner.take() {
+                    self.shadow.touch();
+                    drop(tx);
+                }
+            }
+        }
+
+        impl<T> std::fmt::Debug for Sender<T> {
+            fn fmt(&self, f: &mut std::fmt::Formatter<'_>) -> std::fmt::Result {
+                f.write_str("oneshot::Sender")
+            }
+        }
+
+        impl<T> Receiver<T> {
+            pub fn try_recv(&mut self) -> Result<T, error::TryRecvError> {
+                self.shadow.touch();
+                self.inner.as_mut().expect("receiver alive").try_recv()
+            }
+            pub fn close(&mut self) {
+                self.shadow.touch();
+                self.inner.as_mut().expect("receiver alive").close()
+            }
+        }
+
+        impl<T> Future for Receiver<T> {
+            type Output = Result<T, error::RecvError>;
+            fn poll(mut self: Pin<&mut Self>, cx: &mut Context<'_>) -> Poll<Self::Output> {
+                self.shadow.touch();
+                Pin::new(self.inner.as_mut().expect("receiver alive")).poll(cx)
+            }
+        }
+
+        impl<T> Drop for Receiver<T> {
+            fn drop(&mut self) {
+                if let Some(rx) = self.inner.take() {
+                    self.shadow.touch();
+                    drop(rx);
+                }
+            }
+        }
+
+        impl<T> std::fmt::Debug for Receiver<T> {
+            fn fmt(&self, f: &mut std::fmt::Formatter<'_>) -> std::fmt::Result {
+                f.write_str("oneshot::Receiver")
+            }
+        }
+    }
+}
